@@ -61,7 +61,14 @@ class ParserEngine(ParserCore, CanParse):
         ):
             actual_start: str = self.config.effective_start_rule_name() or 'start'
             rule = self.find_rule(actual_start)
-            return rule(self)
+            try:
+                return rule(self)
+            except RecursionError as e:
+                # NOTE: input nested deeper than the interpreter's stack allows
+                #   is a failure to parse that input, reported like any other
+                raise self.newexcept(
+                    'input is nested too deeply (recursion limit exceeded)',
+                ) from e
 
     @contextmanager
     def bound(
